@@ -321,7 +321,9 @@ class Unit:
             elif d == 'inline-closures':
                 # R19: //@inline-closures <scope> [::: name name ..]  (no names: every local closure with a block body that is only called)
                 segs = [x.strip() for x in arg.split(':::')]
-                self.inline_closures.append((segs[0], segs[1].split() if len(segs) > 1 and segs[1] else None))
+                ent = (segs[0], tuple(segs[1].split()) if len(segs) > 1 and segs[1] else None)
+                if ent not in self.inline_closures:   # the template is parsed once per assembling pass
+                    self.inline_closures.append(ent)
             elif d in ('subst', 'resubst'):
                 sc, frm, to = [x.strip() for x in arg.split(':::')]
                 frm = frm.replace('\\n', '\n') if d == 'subst' else frm
